@@ -50,6 +50,18 @@ def gen_deflate(tier, rng):
             for lb in (7, 8, 9, 10):
                 add(api="deflate", inp=inp, level=level, wrap=[0, 1, 3][(level + lb) % 3], lbuf=lb, mem=(level + lb) % 3, prefill=lb % 3,
                     calls=[[n // 3, 1 << 17, 2, 0], [n // 3, 1 << 17, [2, 1, 0][lb % 3], 0], [n, 1 << 17, 0, 1]], tail_ai=n, tail_ao=1 << 17, cap=60, meta={"family": "unaligned-level-buffer"})
+    # incompressible input a little larger than the compressor's internal buffer (65824 bytes) in ONE call with a flush and only a few
+    # hundred bytes of output room, then more input: the first block is emitted as stored blocks whose tail has to wait in the internal buffer
+    # while the wrapper header still has to come out of the same output room
+    BUF = 65824
+    for level in (1, 2, 3):
+        for wrap in (1, 3, 0):
+            for ao in ((15, 20, 64, 327) if tier == "quick" else (15, 16, 17, 20, 33, 64, 100, 200, 300, 327, 328, 400)):
+                for d in ((10, 12, 14) if tier == "quick" else (0, 5, 9, 10, 11, 12, 13, 14, 15, 20)):
+                    n1 = BUF + ao - d
+                    inp = igz.corpus(rng, "random", n1 + 45000)
+                    add(api="deflate", inp=inp, level=level, wrap=wrap, lbuf=3, mem=[0, 1][(ao + d) % 2], prefill=0,
+                        calls=[[n1, ao, [1, 2][(ao + d) % 2], 0], [45000, 1 << 17, 0, 0], [0, 1 << 17, 0, 1]], tail_ai=len(inp), tail_ao=1 << 17, cap=60, meta={"family": "stored-tail-in-internal-buffer"})
     return scns
 
 def gen_inflate(tier, rng):
